@@ -2147,6 +2147,28 @@ func cliFixedMatrix() []*cliCfg {
 			out = append(out, c)
 		}
 	}
+	// a valid document FOLLOWED BY more content (a second document, JSON lines, garbage): an error for every way the
+	// text reaches the program — first or second named file, or standard input
+	ta := VObj("a", VNum(1))
+	for _, bin := range [][2]string{{"v2jd", ""}, {"top", ""}, {"top", "false"}} {
+		for _, trailing := range []string{"{\"a\":1}\n{\"a\":2}\n", "{\"a\":1} x", "[1,3] oops", "{\"a\":1}{\"a\":1}", "1 2"} {
+			for pos := 0; pos < 3; pos++ {
+				c := &cliCfg{Bin: bin[0], V2: bin[1], Kind: "invalid:trailing-content"}
+				cliSetDocs(c, ta, ta)
+				switch pos {
+				case 0:
+					c.Args = []cliArg{{Content: trailing}, {Content: cliJSON(ta)}}
+				case 1:
+					c.Args = []cliArg{{Content: cliJSON(ta)}, {Content: trailing}}
+				default:
+					t := trailing
+					c.Args = []cliArg{{Content: cliJSON(ta)}}
+					c.Stdin = &t
+				}
+				out = append(out, c)
+			}
+		}
+	}
 	return out
 }
 
